@@ -105,7 +105,7 @@ Return ==
   /\ UNCHANGED <<cache, banned, tgt, found, last, val, nresp>>
   /\ Finish(A("Return", "", 0, 0, IF val = ERR THEN "err" ELSE "ok"))
 
-Classes == {"intact", "other", "mutated", "added", "removed", "stripped", "forged", "dup", "nonblock"}
+Classes == {"intact", "other", "sibling", "mutated", "added", "removed", "stripped", "forged", "dup", "nonblock"}
 
 Init ==
   /\ cache = {} /\ banned = {} /\ pc = "idle" /\ tgt = RUN /\ found = FALSE /\ last = None
